@@ -53,7 +53,17 @@ std::vector<Str> remove_dots_list(const std::vector<Str> &segs, bool rooted);
 
 // section 5.2.2 (strict = false: a reference scheme equal to the base scheme is ignored)
 // Returns false if base has no scheme.
-bool resolve(const RUri &base, const RUri &r, bool strict, RUri &target);
+bool resolve(const RUri &base, const RUri &r, bool strict, RUri &target, Str *pre_path = 0, bool *dots_removed = 0);
+std::vector<Str> split_path(const Str &p, char sep = '/');
+Str join_path(const std::vector<Str> &v);
+
+// What the property statement (C06) requires of resolution: the RFC 5.2.2 target with
+//  - rootless merged paths reduced by the segment-list variant (never becoming absolute), and
+//  - a single "." segment in front where a host-less path would begin with "//".
+// `alt_path` (when has_alt) is the only other accepted spelling: the rootless-list corner where the
+// reduced list starts with an empty segment (text would start with '/'): one "." segment in front.
+struct Expected { RUri t; Str path, alt_path; bool has_alt; int regime; Expected() : has_alt(false), regime(0) {} };
+bool resolve_expected(const RUri &base, const RUri &r, bool strict, Expected &e);
 
 // percent-encoding helpers
 Str upper_hex_triplets(const Str &s);      // %aa -> %AA (only well-formed triplets)
